@@ -27,7 +27,7 @@ TRUSTED = [
     "library's clock in the stress runs",
     "clients keep enter/leave balanced and below 2^30 nested enters (the library traps otherwise; the model has no successor there)",
 ]
-ASSUMPTIONS = ["fewer than 2^32 generations elapse during one dispatch_group_wait (hypothesis of C07_none_left_behind)",
+ASSUMPTIONS = ["fewer than 2^32 generations elapse between a waiter's read of dg_state and its futex wait (Group.reach_nw, explicit hypothesis of C07_none_left_behind / C07_sleeper_has_waker; satisfiable: C07_fresh_satisfiable)",
                "fair scheduling for the liveness clauses"]
 
 NQ_BASE = 100000
@@ -52,11 +52,11 @@ def run_early(variant):
     exe, msg = common.build_harness("c07_early", ["c07_early.c"], whitebox=False)
     if exe is None:
         raise RuntimeError("harness build failed: " + msg)
-    r = common.run([exe, str(variant)], timeout=60)
+    r = common.run([exe, str(variant)], timeout=20)
     for l in r.stdout.splitlines():
         if l.startswith("EARLY"):
             return int(l.split()[2]), r.stdout
-    raise RuntimeError("c07_early gave no verdict: " + r.stdout + r.stderr[-500:])
+    return None, "c07_early gave no verdict (rc=%s): %s %s" % (r.returncode, r.stdout[-300:], r.stderr[-300:])
 
 
 def coq_ev(e, ok=None):
@@ -299,13 +299,18 @@ def analyse(text, label):
 
 
 def correspond(ctx):
-    nseeds, rounds = (4, 36) if ctx.tier == "quick" else (24, 120)
+    nseeds, rounds = (3, 36) if ctx.tier == "quick" else (24, 120)
     fails, mism, alltr, total, notes = [], [], [], {}, []
     # fixed corpus first: the deterministic witness of the notify-early defect found on the unchanged tree
     for v in (0, 1):
         early, out = run_early(v)
-        total["corpus_notify_early_variant%d" % v] = early
-        if early:
+        total["corpus_notify_early_variant%d" % v] = -1 if early is None else early
+        if early is None:
+            # the witness program waits for the leave's 64-bit add on dg_state; a library that no longer performs it hangs here
+            fails.append({"key": "corpus:c07_early-variant%d-no-verdict" % v, "label": "corpus", "variant": v,
+                          "what": "harness/c07_early.c variant %d did not finish: dispatch_group_leave no longer performs the "
+                                  "64-bit atomic add on dg_state the schedule waits for, or a call blocked (%s)" % (v, out[:200])})
+        elif early:
             fails.append({"key": "notify-early", "label": "corpus", "variant": v,
                           "what": "deterministic schedule (harness/c07_early.c variant %d): a notification registered after a new "
                                   "dispatch_group_enter ran while that enter was still outstanding, because the dispatch_group_leave "
@@ -319,6 +324,14 @@ def correspond(ctx):
         alltr += [(sv, t, rd, thr, seed) for (sv, t, rd, thr) in tr]
         for k, v in st.items():
             total[k] = total.get(k, 0) + v
+    # a trace longer than this cannot come from the scripts of the harness (a thread spinning inside the library): it is
+    # reported as a mismatch instead of being fed to Coq
+    LIMIT = 6000
+    toolong = [x for x in alltr if len(x[1]) > LIMIT]
+    alltr = [x for x in alltr if len(x[1]) <= LIMIT]
+    for (sv, t, rd, thr, seed) in toolong[:5]:
+        mism.append({"what": "a recorded thread trace has %d events inside one round (a thread spinning inside the library)" % len(t),
+                     "detail": {"seed": seed, "round": rd, "thread": thr, "trace_tail": [e.brief() for e in t[-12:]]}})
     res = conc.coq_conform("c07_conf", ["Word", "Conc", "Gen_group", "Group"], "(fun (_ : Z) tr => conform tr)",
                            [(sv, t) for (sv, t, _, _, _) in alltr], chunk=300)
     for (i, idle), (sv, t, rd, thr, seed) in zip(res, alltr):
@@ -344,7 +357,7 @@ def correspond(ctx):
                     "per round, schedule perturbation inside the library's atomic operations (0/15/40 percent of events), SIGUSR1 "
                     "storms without SA_RESTART, a 4 s no-progress watchdog; every per-thread, per-round event trace on dg_state / "
                     "dg_gen / dg_notify_head / dg_notify_tail and on the target queue's dq_items_tail recorded by the "
-                    "DISPATCH_VERIF hook is replayed through Group.tstep inside Coq; API-level oracle on stamps: wait==0 needs a "
+                    "DISPATCH_VERIF hook (a run of NULL loads from dg_notify_head by one spinning thread written once) is replayed through Group.tstep inside Coq; API-level oracle on stamps: wait==0 needs a "
                     "moment in [call, return] where the count could be zero, wait!=0 needs the deadline reached by the library's "
                     "clock and a moment where the count could be non-zero, every notify block runs exactly once and not while an "
                     "enter that returned before the notify call provably had not started to leave, nothing blocked or unfired after "
@@ -359,7 +372,7 @@ def replay(ctx, obj):
         lab = f.get("label", "seed1")
         if lab == "corpus":
             early, out = run_early(f.get("variant", 0))
-            print("re-run of harness/c07_early.c variant %d: EARLY=%d\n%s" % (f.get("variant", 0), early, out))
+            print("re-run of harness/c07_early.c variant %d: EARLY=%s\n%s" % (f.get("variant", 0), early, out))
             continue
         seed = int(lab.replace("seed", "")) if lab.startswith("seed") else 1
         text = run_harness(ctx, seed, 36, [0, 150, 400][seed % 3])
